@@ -3119,6 +3119,18 @@ def _container_helper_classes(modname, tree, inv):
                 p_ = parents.get(id(x))
                 if not (isinstance(p_, ast.Call) and p_.func is x and _simple_arg(x.value) and isinstance(x.ctx, ast.Load)):
                     ok = False
+                # the receiver must be KNOWN to hold an instance: `self.<attr>` (or a local) every binding of which in this module is `K()`
+                rv = x.value
+                key = rv.attr if isinstance(rv, ast.Attribute) and isinstance(rv.value, ast.Name) and rv.value.id == "self" else (rv.id if isinstance(rv, ast.Name) else None)
+                if key is None:
+                    ok = False
+                else:
+                    binds = [a_ for a_ in ast.walk(tree) if isinstance(a_, (ast.Assign, ast.AnnAssign)) and any(
+                        (isinstance(t_, ast.Attribute) and t_.attr == key) or (isinstance(t_, ast.Name) and t_.id == key) for t_ in (a_.targets if isinstance(a_, ast.Assign) else [a_.target]))]
+                    if not binds or not all(isinstance(getattr(a_, "value", None), ast.Call) and isinstance(a_.value.func, ast.Name) and a_.value.func.id == cls.name for a_ in binds):
+                        ok = False
+                    if isinstance(rv, ast.Name) and any(isinstance(a_, ast.arg) and a_.arg == key for a_ in ast.walk(tree)):
+                        ok = False
             elif isinstance(x, ast.Constant) and x.value in names:
                 ok = False
         if ok:
@@ -3350,19 +3362,34 @@ def _record_classes(modname, tree, inv):
                (id(x) in own or not (isinstance(x.value, ast.Name) and x.value.id == "self")) for x in ast.walk(tree)):
             continue
         others = {n_: m for n_, m in meths.items() if n_ != "__init__"}
-        if any(defs.get(n_, 0) != 1 or n_ in fields for n_ in others):
+        if any(n_ in fields for n_ in others):
             continue
         if any(isinstance(n, ast.Name) and n.id in ("super", "__class__") for m, _c in others.values() for n in ast.walk(m)):
             continue
-        # every mention of a method name in the module is a call on a plain name (instance methods) or on the class (classmethods)
+        # receivers: ONLY locals that are bound exactly once, to a construction of this class (`r = K(..)` / `r = K.alt(..)`): a method of
+        # the same name on anything else (an asyncio future has set_exception too) is not ours
+        known = set()           # ids of Name nodes that denote an instance
+        for fn_ in [x for x in ast.walk(tree) if isinstance(x, FUNC) and id(x) not in own]:
+            st_count, ctor = {}, {}
+            for x in _walk_local(fn_):
+                if isinstance(x, ast.Name) and isinstance(x.ctx, (ast.Store, ast.Del)):
+                    st_count[x.id] = st_count.get(x.id, 0) + 1
+                    p_ = parents.get(id(x))
+                    if isinstance(p_, ast.Assign) and len(p_.targets) == 1 and p_.targets[0] is x and isinstance(p_.value, ast.Call):
+                        f_ = p_.value.func
+                        if (isinstance(f_, ast.Name) and f_.id == cls.name) or (isinstance(f_, ast.Attribute) and isinstance(f_.value, ast.Name) and f_.value.id == cls.name and
+                                                                                  f_.attr in others and others[f_.attr][1]):
+                            ctor[x.id] = True
+            params_ = {a.arg for a in fn_.args.posonlyargs + fn_.args.args + fn_.args.kwonlyargs}
+            for x in _walk_local(fn_):
+                if isinstance(x, ast.Name) and isinstance(x.ctx, ast.Load) and ctor.get(x.id) and st_count.get(x.id) == 1 and x.id not in params_:
+                    known.add(id(x))
+        # classmethod constructors are reached through the class name only
         for x in ast.walk(tree):
-            if isinstance(x, ast.Attribute) and x.attr in others and id(x) not in own:
+            if isinstance(x, ast.Attribute) and x.attr in others and others[x.attr][1] and id(x) not in own:
                 p_ = parents.get(id(x))
-                is_call = isinstance(p_, ast.Call) and p_.func is x
-                if not is_call or not isinstance(x.value, ast.Name) or (others[x.attr][1] != (x.value.id == cls.name)):
+                if not (isinstance(p_, ast.Call) and p_.func is x and isinstance(x.value, ast.Name) and x.value.id == cls.name):
                     ok = False
-            elif isinstance(x, ast.Constant) and x.value in others:
-                ok = False
         if not ok:
             continue
         for n_, (m, is_cm) in others.items():
@@ -3373,7 +3400,8 @@ def _record_classes(modname, tree, inv):
                 for x in ast.walk(m):
                     if isinstance(x, ast.Name) and x.id == cname:
                         x.id = cls.name
-        for c in [x for x in ast.walk(tree) if isinstance(x, ast.Call) and id(x) not in own and isinstance(x.func, ast.Attribute) and x.func.attr in others and not others[x.func.attr][1]]:
+        for c in [x for x in ast.walk(tree) if isinstance(x, ast.Call) and id(x) not in own and isinstance(x.func, ast.Attribute) and x.func.attr in others and not others[x.func.attr][1]
+                  and id(x.func.value) in known]:
             recv = c.func.value
             c.func = ast.copy_location(ast.Attribute(value=ast.Name(id=cls.name, ctx=ast.Load()), attr=c.func.attr, ctx=ast.Load()), c.func)
             c.args = [recv] + c.args
